@@ -94,34 +94,101 @@ Example ex_swarm_factory_raises :
 Proof. vm_compute. repeat split. Qed.
 
 (* ---- tool loop ----------------------------------------------------------- *)
-Definition ex_forever (k : nat) (_ : list Z) : presp := PResp 1 [Z.of_nat k; 5].
-Definition ex_plain_at_2 (k : nat) (_ : list Z) : presp :=
-  if Nat.eqb k 2 then PResp 9 [] else PResp 1 [4].
-Definition ex_complete (final : bool) (prev : list Z) : option Z := Some (if final then 100 else 50).
+(* the scripted stub environment of the correspondence cases, state = (provider
+   invocations so far, open tool frames) *)
+Definition ex_run (p : pbeh) (tools : list tkind) (has_method : bool) (max_depth : nat)
+                  (limit : Z) (auto : bool) :=
+  transcribe_with_tools (interp_with_tools p) (interp_complete_st (CAff 100))
+    (interp_tool_pre tools max_depth) (interp_tool_post tools)
+    (match tools with [] => false | _ => true end) has_method
+    8%nat (0%nat, 0%nat) [] 0 limit auto.
+Definition ex_trace (r : cst * list Z * trace * tfinal) : trace := snd (fst r).
+
+Definition ex_forever : pbeh := PScript [] (PI 1 [0; 11]).   (* two tool calls on every round, forever *)
+Definition ex_plain_at_2 : pbeh := PScript [PI 1 [0]; PI 1 [0]; PI 9 []] (PI 1 [0]).
 
 (* the hypothesis of c18_tool_rounds_forever_exact is satisfiable *)
-Example ex_forever_requests : forall k p, exists c c0 calls, ex_forever k p = PResp c (c0 :: calls).
-Proof. intros k p. exists 1, (Z.of_nat k), [5]. reflexivity. Qed.
+Example ex_forever_requests :
+  forall s q p, exists s' c c0 calls,
+    interp_with_tools ex_forever s q p = (s', PResp c (c0 :: calls)).
+Proof. intros s q p. exists (S (fst s), snd s), 1, 0, [11]. unfold interp_with_tools, ex_forever. cbn.
+       destruct (fst s) as [|[|n]]; reflexivity. Qed.
 
 Example ex_tool_forever :
-  let r := transcribe_with_tools ex_forever ex_complete (fun c => c + 1) true true true 3 in
-  count is_tools_ev (fst r) = 3%nat /\ count is_complete_ev (fst r) = 1%nat /\
-  count is_exec_ev (fst r) = 6%nat /\ snd r = TReturned 100 true /\
-  last (fst r) (EvTools 0 []) = EvComplete true [3; 6].
+  let r := ex_run ex_forever [KOk; KBoom] true 0 3 true in
+  rounds (ex_trace r) = 3%nat /\ completions (ex_trace r) = 1%nat /\ execs (ex_trace r) = 6%nat /\
+  snd r = TReturned (100 + 1 + 2 * (1 + -2)) /\ fuel_ok (ex_trace r).
 Proof. vm_compute. repeat split. Qed.
 
 Example ex_tool_plain :
-  let r := transcribe_with_tools ex_plain_at_2 ex_complete (fun c => c + 1) true true true 4 in
-  count is_tools_ev (fst r) = 3%nat /\ count is_complete_ev (fst r) = 0%nat /\
-  snd r = TReturned 9 true.
+  let r := ex_run ex_plain_at_2 [KOk] true 0 4 true in
+  rounds (ex_trace r) = 3%nat /\ completions (ex_trace r) = 0%nat /\ snd r = TReturned 9.
 Proof. vm_compute. repeat split. Qed.
 
 Example ex_tool_zero_iterations :
-  let r := transcribe_with_tools ex_forever ex_complete (fun c => c + 1) true true true 0 in
-  fst r = [EvComplete true []] /\ snd r = TReturned 100 true.
+  let r := ex_run ex_forever [KOk] true 0 0 true in
+  ex_trace r = TComplete 0 true [] TNil /\ snd r = TReturned 101.
 Proof. vm_compute. repeat split. Qed.
 
 Example ex_tool_no_tools :
-  let r := transcribe_with_tools ex_forever ex_complete (fun c => c + 1) true false true 3 in
-  fst r = [EvComplete false []] /\ snd r = TReturned 50 true.
+  let r := ex_run ex_forever [] true 0 3 true in
+  ex_trace r = TComplete 0 false [] TNil /\ snd r = TReturned 100.
+Proof. vm_compute. repeat split. Qed.
+
+(* re-entrancy: the only registered tool is a sub-agent that calls
+   transcribe_with_tools(max_iterations=2) on the same nucleus; the provider asks
+   for it on every top-level prompt and answers sub-agent prompts directly.  The
+   outer call still makes exactly 3 rounds + 1 completion; each of the 3 nested
+   activations makes 1 round and no completion of its own. *)
+Example ex_tool_subagent :
+  let r := ex_run (PBySub (PI 1 [0]) (PI 9 [])) [KNest 2 true] true 1 3 true in
+  rounds (ex_trace r) = 3%nat /\ completions (ex_trace r) = 1%nat /\ execs (ex_trace r) = 3%nat /\
+  ex_trace r =
+    TTools 0 [] (TExec 0 (ICall 100 2 true (TTools 100 [] TNil) (TReturned 9)) 9
+    (TTools 0 [9] (TExec 0 (ICall 100 2 true (TTools 100 [] TNil) (TReturned 9)) 9
+    (TTools 0 [9] (TExec 0 (ICall 100 2 true (TTools 100 [] TNil) (TReturned 9)) 9
+    (TComplete 0 true [9] TNil)))))) /\
+  snd (fst (fst r)) = [9; 9; 9; 119] /\ fuel_ok (ex_trace r).
+Proof. vm_compute. repeat split. Qed.
+
+(* tools forever at every level, two levels of sub-agents (limit 2 each) and a
+   tool that clears the log: every activation uses exactly its own budget
+   (1 + 2 + 4 activations), and only the last completion survives in the log *)
+Fixpoint ex_budgets (t : trace) : list (Z * nat * nat) :=
+  match t with
+  | TNil => []
+  | TTools _ _ r => ex_budgets r
+  | TExec _ i _ r => ex_budgets_inner i ++ ex_budgets r
+  | TComplete _ _ _ r => ex_budgets r
+  end
+with ex_budgets_inner (i : inner) : list (Z * nat * nat) :=
+  match i with
+  | ICall _ l _ t _ => (l, rounds t, completions t) :: ex_budgets t
+  | _ => []
+  end.
+
+Example ex_tool_nested_forever :
+  let r := ex_run ex_forever [KNest 2 true; KClear] true 2 2 true in
+  rounds (ex_trace r) = 2%nat /\ completions (ex_trace r) = 1%nat /\
+  ex_budgets (ex_trace r) =
+    [(2, 2%nat, 1%nat); (2, 2%nat, 1%nat); (2, 2%nat, 1%nat);
+     (2, 2%nat, 1%nat); (2, 2%nat, 1%nat); (2, 2%nat, 1%nat)] /\
+  length (snd (fst (fst r))) = 1%nat /\ fuel_ok (ex_trace r).
+Proof. vm_compute. repeat split. Qed.
+
+(* the fuel is an explicit observation when it does run out *)
+Example ex_tool_out_of_fuel :
+  let r := transcribe_with_tools (interp_with_tools ex_forever) (interp_complete_st (CAff 100))
+             (interp_tool_pre [KNest 1 true] 5) (interp_tool_post [KNest 1 true]) true true
+             1%nat (0%nat, 0%nat) [] 0 1 true in
+  ~ fuel_ok (ex_trace r).
+Proof. vm_compute. intros [[[] _] _]. Qed.
+
+(* consecutive calls on one nucleus: the provider's script and the log carry over *)
+Example ex_tool_history :
+  let r := run_calls (interp_with_tools (PScript [PI 1 [0]; PI 1 [0]; PI 1 [0]; PI 5 []] (PI 1 [0])))
+             (interp_complete_st (CAff 100)) (interp_tool_pre [KOk] 0) (interp_tool_post [KOk])
+             true true 8%nat (0%nat, 0%nat) [] 0 [(2, true); (3, true)] in
+  map (fun c => (rounds (c_trace c), completions (c_trace c), c_loglen c)) (fst r) =
+    [(2%nat, 1%nat, 1%nat); (2%nat, 0%nat, 2%nat)].
 Proof. vm_compute. repeat split. Qed.
